@@ -258,4 +258,43 @@ theorem RWorld.abs_copied_inplace (w : RWorld) (hs : w.Sep) (i : Nat) (hi : i < 
   rw [this, List.set_append_right _ _ (le_refl _)]
   simp
 
+theorem RWorld.Sep_empty : RWorld.Sep {} := by decide
+
+theorem RWorld.Sep_copied (w : RWorld) (hs : w.Sep) (i : Nat) (ops : List ArrOp) : (w.copied i ops).Sep :=
+  RWorld.Sep_inplace _ (w.Sep_construct hs _) _ _
+
+/-- every request of the `ref` protocol keeps the invariant -/
+theorem stepRef_sep (w w' : RWorld) (toks : List String) (out : String) (hs : w.Sep)
+    (h : stepRef w toks = some (w', out)) : w'.Sep := by
+  unfold stepRef at h
+  split at h
+  · simp only [Option.some.injEq, Prod.mk.injEq] at h; rw [← h.1]; exact RWorld.Sep_empty
+  · simp only [Option.map_eq_some_iff, Prod.mk.injEq] at h
+    obtain ⟨a, _, rfl, _⟩ := h; exact w.Sep_new hs a
+  · simp only [Option.bind_eq_bind, Option.bind_eq_some_iff, Option.pure_def] at h
+    obtain ⟨idx, _, h⟩ := h
+    split at h
+    · simp at h
+    · simp only [Option.some.injEq, Prod.mk.injEq] at h; rw [← h.1]; exact w.Sep_construct hs _
+  · simp only [Option.bind_eq_bind, Option.bind_eq_some_iff, Option.pure_def] at h
+    obtain ⟨i, _, h⟩ := h
+    split at h
+    · simp at h
+    · simp only [Option.some.injEq, Prod.mk.injEq] at h; rw [← h.1]; exact w.Sep_construct hs _
+  · simp only [Option.bind_eq_bind, Option.bind_eq_some_iff, Option.pure_def] at h
+    obtain ⟨i, _, ops, _, h⟩ := h
+    split at h
+    · simp at h
+    · simp only [Option.some.injEq, Prod.mk.injEq] at h; rw [← h.1]; exact w.Sep_inplace hs _ _
+  · simp only [Option.bind_eq_bind, Option.bind_eq_some_iff, Option.pure_def] at h
+    obtain ⟨i, _, ops, _, h⟩ := h
+    split at h
+    · simp at h
+    · simp only [Option.some.injEq, Prod.mk.injEq] at h; rw [← h.1]; exact w.Sep_copied hs _ _
+  · simp only [Option.bind_eq_bind, Option.bind_eq_some_iff, Option.pure_def] at h
+    obtain ⟨i, _, o, _, h⟩ := h
+    simp only [Option.some.injEq, Prod.mk.injEq] at h; rw [← h.1]; exact hs
+  · simp only [Option.some.injEq, Prod.mk.injEq] at h; rw [← h.1]; exact hs
+  · simp at h
+
 end HcipyVerif.Grid
